@@ -216,6 +216,30 @@ func runLBAcct(x *X) {
 		x.State(fmt.Sprint(total, okc, failc, rl))
 	}
 
+	// Rare opening (it is expensive): a pool with a long provisioning history. More than a hundred
+	// backends have come and gone under fresh names before the traffic starts (autoscaling churn);
+	// whatever the collector keeps about them, the members of today are accounted for like any others.
+	churnOdds := 60
+	if x.Tier == "thorough" {
+		churnOdds = 25
+	}
+	if c.Intn(churnOdds, "provisioning-churn") == 0 {
+		n := 95 + c.Intn(30, "churn-n")
+		s.StepLimit *= 4
+		x.Do("churn", func() {
+			for j := 0; j < n; j++ {
+				name := fmt.Sprintf("ephemeral-%d", j)
+				if err := h.lb.AddBackend(config.BackendConfig{Name: name, Address: fmt.Sprintf("http://10.99.%d.%d:8080", j/250, 1+j%250), Weight: 1}); err != nil {
+					panic(err)
+				}
+				// (a metrics entry exists from the first health or request record on: make one)
+				h.lb.GetMetricsCollector().UpdateBackendHealth(name, true)
+				h.lb.RemoveBackend(name)
+			}
+		}, onErr)
+		x.Fault("provisioning-churn")
+		x.Probe("books-after-provisioning-churn")
+	}
 	nSteps := 3 + c.Intn(8, "nsteps")
 	clients := []string{"192.0.2.1", "192.0.2.2", "198.51.100.7"}
 	for i := 0; i < nSteps && !x.dead; i++ {
